@@ -76,6 +76,11 @@ func NewProxy() *Proxy {
 			Proxy:                 http.ProxyFromEnvironment,
 			TLSHandshakeTimeout:   10 * time.Second,
 			ExpectContinueTimeout: time.Second,
+			// A proxy relays the representation the origin chose. Left enabled, the
+			// transport adds "Accept-Encoding: gzip" to requests that carry none,
+			// decodes the answer and strips Content-Encoding and Content-Length, and
+			// the decoded response is then written back with no framing at all.
+			DisableCompression: true,
 		},
 		timeout: 5 * time.Minute,
 		closing: make(chan bool),
